@@ -35,10 +35,31 @@ func newJudge(r *ev.Result, rng *rand.Rand) *judge {
 	return &judge{r: r, rng: rng, sbs: map[string]sbOwner{}}
 }
 
+// held remembers, per encoder, the slice the previous call returned and a
+// private copy of its content: an encoder whose result is a view of storage
+// that the next call reuses changes bytes it has already handed out (every
+// single encode-then-compare would still look right).
+var held = map[string][2][]byte{}
+
+func holdOutput(r *ev.Result, what string, got []byte) {
+	if prev, ok := held[what]; ok {
+		r.Eval(1)
+		r.Count("enc.previous_output_rechecked", 1)
+		if !bytes.Equal(prev[0], prev[1]) {
+			r.Violationf("encoder-output-changed-by-next-call:"+what, map[string]interface{}{"before": hx(prev[1]), "after": hx(prev[0])},
+				"%s: the bytes returned by the previous call changed when the encoder was called again (first difference at byte %d of %d)", what, firstDiff(prev[0], prev[1]), len(prev[1]))
+			delete(held, what)
+			return
+		}
+	}
+	held[what] = [2][]byte{got, append([]byte(nil), got...)}
+}
+
 // same judges one byte-exact comparison.
 func (j *judge) same(counter, key, what string, got, want []byte, value interface{}) bool {
 	j.r.Eval(1)
 	j.r.Count(counter, 1)
+	holdOutput(j.r, what, got)
 	if bytes.Equal(got, want) {
 		return true
 	}
@@ -569,6 +590,9 @@ func serverMap(r *ev.Result, rng *rand.Rand, i int) {
 	got, err := client.SerializeGCAServerMap(toMap(es))
 	r.Eval(1)
 	r.Count("enc.servermap", 1)
+	if err == nil {
+		holdOutput(r, "SerializeGCAServerMap", got)
+	}
 	if err != nil {
 		r.Violationf("encoding-refused:servermap", map[string]interface{}{"entries": k}, "SerializeGCAServerMap refused a map with locations <= 65535 bytes: %v", err)
 	} else if why := permutationOf(got, byKey); why != "" {
